@@ -133,3 +133,262 @@ def split_call(rng, a, k):
     return (list(a), {n: k[n] for n in keys[:cut]}), ([], {n: k[n] for n in keys[cut:]})
   # keywords now, positional values (+ remaining keywords) later
   return ([], {n: k[n] for n in keys[:cut]}), (list(a), {n: k[n] for n in keys[cut:]})
+
+
+# -- families of callables that share one code object --------------------------
+#
+# Defaults, keyword-only defaults and annotations belong to the function
+# object, not to its code: the members of a family have the same parameter
+# names and kinds (and one code object, or code objects that compare equal) but
+# their own defaults / annotations.
+
+FAMILY_METHODS = ['factory', 'recompile', 'compile-once', 'assign', 'functiontype',
+                  'remutate']
+
+
+def make_family(rng, sig, n, method=None):
+  """{'method', 'members': [signature, ...]}: n variants of the shape of `sig`."""
+  method = method or rng.choice(FAMILY_METHODS)
+  fixed = method in ('factory', 'recompile', 'compile-once')
+  typed = sig['typed']
+  npos = len(sig['pos'])
+  base_ndef = rng.randint(1 if npos else 0, npos)
+  base_kwdef = [rng.random() < 0.6 for _ in sig['kwonly']]
+  base_annot = {p[0]: rng.random() < 0.4 for p in sig['pos'] + sig['kwonly']}
+  if method == 'remutate':
+    n = 2
+  members = []
+  for m in range(n):
+    ndef = base_ndef if fixed else rng.randint(0, npos)
+    def annot(name):
+      if fixed:
+        if not base_annot[name]:
+          return None
+        return rng.choice(['int', 'Any']) if typed else 'Any'
+      return rng.choice([None, 'int', 'Any']) if typed else rng.choice([None, None, 'Any'])
+    pos = []
+    for i, p in enumerate(sig['pos']):
+      has_default = i >= npos - ndef
+      default = None
+      if has_default:
+        if typed or rng.random() < 0.7:
+          default = 100 * (m + 1) + 10 * (i + 1)
+        else:
+          default = rng.choice([None, 'dflt', 'alt'])
+      pos.append((p[0], has_default, default, annot(p[0])))
+    kwonly = []
+    for i, p in enumerate(sig['kwonly']):
+      has_default = base_kwdef[i] if fixed else rng.random() < 0.5
+      default = (1000 * (m + 1) + 100 + i) if has_default else None
+      kwonly.append((p[0], has_default, default, annot(p[0]) if typed or not fixed else None))
+    members.append({'pos': pos, 'varargs': sig['varargs'], 'kwonly': kwonly,
+                    'varkw': sig['varkw'], 'typed': typed})
+  return {'method': method, 'members': members}
+
+
+def render_params_indirect(sig, dname, tname):
+  """Parameter list whose defaults / annotations are `dname[...]` / `tname[...]`."""
+  parts = []
+  def one(p):
+    name, has_default, _, annot = p
+    s = name
+    if annot:
+      s += f': {tname}[{name!r}]'
+    if has_default:
+      s += f' = {dname}[{name!r}]'
+    return s
+  parts += [one(p) for p in sig['pos']]
+  if sig['varargs']:
+    parts.append('*' + sig['varargs'])
+  elif sig['kwonly']:
+    parts.append('*')
+  parts += [one(p) for p in sig['kwonly']]
+  if sig['varkw']:
+    parts.append('**' + sig['varkw'])
+  return ', '.join(parts)
+
+
+def _bare(sig):
+  strip = lambda ps: [(p[0], False, None, None) for p in ps]
+  return dict(sig, pos=strip(sig['pos']), kwonly=strip(sig['kwonly']))
+
+
+def _member_values(sig, annotations):
+  d = {p[0]: p[2] for p in sig['pos'] + sig['kwonly'] if p[1]}
+  t = {p[0]: annotations[p[3]] for p in sig['pos'] + sig['kwonly'] if p[3]}
+  return d, t
+
+
+def _assign(fn, sig, annotations):
+  """Gives a function object the defaults / annotations of `sig`."""
+  d, t = _member_values(sig, annotations)
+  pd = tuple(p[2] for p in sig['pos'] if p[1])
+  fn.__defaults__ = pd or None
+  kd = {p[0]: p[2] for p in sig['kwonly'] if p[1]}
+  fn.__kwdefaults__ = kd or None
+  fn.__annotations__ = dict(t)
+  del d
+
+
+def build_family(rng, family, uid, module, annotations):
+  """Plain callables of a family.
+
+  Returns a list of stages `(signature, f, K, prepare, final)` in the order in
+  which they are to be symbolized: `prepare()` is called right before `f` / `K`
+  are symbolized; only `final` stages are exercised afterwards (the earlier
+  stages of 'remutate' are the same objects with their former defaults).
+  `annotations` maps the annotation names ('int', 'Any') to objects.
+  """
+  import types as _types
+  method, members = family['method'], family['members']
+  fname, cname = f'fam_{uid}', f'KF_{uid}'
+  body_f = '  return dict(locals())\n'
+  body_k = ('    got = dict(locals())\n'
+            '    got.pop("self")\n'
+            '    self.got = got\n')
+  def sources(shape, indent=''):
+    params = render_params_indirect(shape, 'D', 'T')
+    fsrc = f'{indent}def {fname}({params}):\n' + ''.join(
+        indent + l + '\n' for l in body_f.splitlines())
+    ksrc = (f'{indent}class {cname}:\n'
+            f'{indent}  def __init__(self{", " + params if params else ""}):\n'
+            + ''.join(indent + l + '\n' for l in body_k.splitlines()))
+    return fsrc, ksrc
+  def factory(shape):
+    fsrc, ksrc = sources(shape, '  ')
+    src = (f'def mk_{uid}(D, T):\n{fsrc}{ksrc}  return {fname}, {cname}\n')
+    ns = {'__name__': module}
+    exec(src, ns)  # pylint: disable=exec-used
+    return ns[f'mk_{uid}']
+
+  made = []      # (sig, f, K, prepare)
+  noop = lambda: None
+  if method == 'factory':
+    mk = factory(members[0])
+    for s in members:
+      f, k = mk(*_member_values(s, annotations))
+      made.append((s, f, k, noop))
+  elif method in ('recompile', 'compile-once'):
+    fsrc, ksrc = sources(members[0])
+    code = compile(fsrc + ksrc, '<family>', 'exec')
+    for s in members:
+      d, t = _member_values(s, annotations)
+      ns = {'__name__': module, 'D': d, 'T': t}
+      if method == 'recompile':
+        exec(fsrc + ksrc, ns)  # pylint: disable=exec-used
+      else:
+        exec(code, ns)  # pylint: disable=exec-used
+      made.append((s, ns[fname], ns[cname], noop))
+  elif method in ('assign', 'functiontype'):
+    mk = factory(_bare(members[0]))
+    f0, k0 = mk({}, {})
+    for s in members:
+      if method == 'assign':
+        f, k = mk({}, {})
+      else:
+        f = _types.FunctionType(f0.__code__, f0.__globals__, fname)
+        init = _types.FunctionType(k0.__init__.__code__, k0.__init__.__globals__, '__init__')
+        k = type(cname, (), {'__init__': init})
+      _assign(f, s, annotations)
+      _assign(k.__init__, s, annotations)
+      made.append((s, f, k, noop))
+  else:   # remutate: one function object, its defaults change between two uses
+    mk = factory(_bare(members[0]))
+    f, k = mk({}, {})
+    for s in members:
+      def prepare(s=s):
+        _assign(f, s, annotations)
+        _assign(k.__init__, s, annotations)
+      made.append((s, f, k, prepare))
+
+  stages = []
+  if method == 'remutate':
+    for m, (s, f, k, prepare) in enumerate(made):
+      stages.append((s, f, k, prepare, m == len(made) - 1))
+    names = [(f, k, f'{fname}_0', f'{cname}_0')]
+  else:
+    order = list(range(len(made)))
+    rng.shuffle(order)
+    names = []
+    for m in order:
+      s, f, k, prepare = made[m]
+      stages.append((s, f, k, prepare, True))
+      names.append((f, k, f'{fname}_{m}', f'{cname}_{m}'))
+  # Own names: symbolic classes are registered for deserialization by name.
+  for f, k, fn, kn in names:
+    f.__name__ = f.__qualname__ = fn
+    k.__name__ = k.__qualname__ = kn
+    f.__module__ = k.__module__ = module
+  return stages
+
+
+# -- classes whose __init__ builds state conditionally and may raise -----------
+
+BAD_VALUES = (7, 13)
+NEUTRAL = 5
+
+
+def make_init_plan(rng, sig):
+  """Statements of a stateful `__init__` for the parameters of `sig`."""
+  plan = [('count',)]
+  named = sig['pos'] + sig['kwonly']
+  for name, has_default, default, annot in named:
+    r = rng.random()
+    if r < 0.3:
+      plan.append(('set', name))
+    elif r < 0.55 and not sig['typed']:
+      plan.append(('set-if-not-none', name))
+    elif r < 0.85:
+      plan.append(('set-if-ne', name, default if has_default and default is not None else NEUTRAL))
+    else:
+      plan.append(('trail', name))
+  if sig['varargs']:
+    plan.append(('varargs', sig['varargs'], rng.choice(['tuple', 'len'])))
+  if sig['varkw']:
+    plan.append(('varkw', sig['varkw']))
+  rng.shuffle(plan)
+  guards = [p[0] for p in named]
+  nraise = 0
+  if guards:
+    for name in rng.sample(guards, min(len(guards), rng.choice([1, 1, 2]))):
+      plan.insert(rng.randint(1 if len(plan) > 1 else 0, len(plan)), ('raise', name))
+      nraise += 1
+  elif sig['varkw']:
+    plan.insert(rng.randint(1, len(plan)), ('raise-extra', sig['varkw'], UNKNOWN[0]))
+  return plan
+
+
+def guarded(plan):
+  """Names whose value can make the planned `__init__` raise (extras as '**name')."""
+  return [p[1] if p[0] == 'raise' else p[2] for p in plan if p[0] in ('raise', 'raise-extra')]
+
+
+def render_stateful_class(sig, name, plan):
+  params = render_params(sig)
+  lines = [f'class {name}:', f'  def __init__(self{", " + params if params else ""}):']
+  for st in plan:
+    op = st[0]
+    if op == 'count':
+      lines.append("    self.inits = getattr(self, 'inits', 0) + 1")
+    elif op == 'set':
+      lines.append(f'    self.v_{st[1]} = {st[1]}')
+    elif op == 'set-if-not-none':
+      lines += [f'    if {st[1]} is not None:', f'      self.v_{st[1]} = {st[1]}']
+    elif op == 'set-if-ne':
+      lines += [f'    if {st[1]} != {st[2]!r}:', f'      self.v_{st[1]} = {st[1]}']
+    elif op == 'trail':
+      lines.append(f"    self.trail = getattr(self, 'trail', ()) + (({st[1]!r}, {st[1]}),)")
+    elif op == 'varargs':
+      if st[2] == 'tuple':
+        lines += [f'    if {st[1]}:', f'      self.v_{st[1]} = tuple({st[1]})']
+      else:
+        lines.append(f'    self.n_{st[1]} = len({st[1]})')
+    elif op == 'varkw':
+      lines += [f'    for _n, _v in {st[1]}.items():', "      setattr(self, 'opt_' + _n, _v)"]
+    elif op == 'raise':
+      lines += [f'    if {st[1]} in {BAD_VALUES!r}:',
+                f"      raise ValueError('bad value for {st[1]}')"]
+    elif op == 'raise-extra':
+      lines += [f'    if {st[1]}.get({st[2]!r}) in {BAD_VALUES!r}:',
+                f"      raise ValueError('bad value for {st[2]}')"]
+  return '\n'.join(lines) + '\n'
